@@ -248,11 +248,15 @@ def main():
     ap.add_argument("--base", default="/tmp/mutsweep")
     ap.add_argument("--list", action="store_true")
     ap.add_argument("--ops", default="A")
+    ap.add_argument("--only", help="file with one mutant id per line: run only these")
+    ap.add_argument("--resname", help="name of the result file inside --out")
     a = ap.parse_args()
     global ACTIVE_OPS
     if a.ops == "B": ACTIVE_OPS = OPS_B
     os.makedirs(a.out, exist_ok=True)
     resf = os.path.join(a.out, "results.jsonl" if a.ops == "A" else f"results_{a.ops}.jsonl")
+    if a.resname: resf = os.path.join(a.out, a.resname)
+    only = set(open(a.only).read().split()) if a.only else None
     done = set()
     if os.path.exists(resf):
         for l in open(resf):
@@ -276,6 +280,7 @@ def main():
         for m in pick:
             mid = hashlib.sha1(f"{path}:{m[0]}:{m[3]}".encode()).hexdigest()[:10]
             if mid in done: continue
+            if only is not None and mid not in only: continue
             if a.list:
                 print(path, m[0] + 1, m[1], "|", m[2].strip(), "=>", m[3].strip())
             q.put((path, m, mid))
